@@ -131,6 +131,9 @@ func NewRun(prop, tier, level, root string, seed int64) *Run {
 		cells: map[string]int64{}, ntcells: map[string]bool{}, samples: map[string]any{},
 		knownIdx: map[string]knownRef{}, knownHits: map[string]int{}, Extra: map[string]any{},
 		Bounds: map[string]any{}, Exhaustive: true, MaxViol: 40}
+	if v := os.Getenv("VERIF_MAXVIOL"); v != "" {
+		fmt.Sscan(v, &r.MaxViol)
+	}
 	r.loadKnown()
 	go r.watchdog()
 	return r
@@ -314,7 +317,7 @@ func (r *Run) Fail(c Case) {
 	if len(r.violations) < r.MaxViol {
 		r.violations = append(r.violations, c)
 	}
-	if int(r.nviol.Load()) >= 2000 {
+	if int(r.nviol.Load()) >= 2000 && r.MaxViol <= 40 {
 		r.stop.Store(true)
 	}
 }
